@@ -1,7 +1,7 @@
 (* C17: the phases around the user-tag phase (load, expand, FOR, write) on templates of the grammar, and the whole pipeline. *)
 From Coq Require Import String Ascii List Bool Arith Lia.
 From KV Require Import Lib.Str Lib.StrOps Lib.ODict Gen.Tags Gen.Pipeline Model.Engine Model.EngineSM Model.EngineDomain
-                       Spec.RefExpand Proofs.StrProofs Proofs.EngineStr Proofs.EngineC17.
+                       Spec.RefExpand Proofs.StrProofs Proofs.EngineStr Proofs.EngineRepl Proofs.EngineC17 Proofs.EngineFor.
 Import ListNotations.
 Open Scope string_scope.
 Open Scope list_scope.
@@ -153,27 +153,62 @@ Section ForPhase.
   Lemma for_end_facts : hasSpecificTag render_for_end TAG_FOR_BEGIN = false /\ hasSpecificTag render_for_end TAG_FOR_END = true.
   Proof. vm_compute. auto. Qed.
 
+  (* substituting user tags keeps a line inside the segment syntax, and cannot create a FIRST / LAST tag *)
+  Hypothesis Ha : assign_ok a = true.
+
+  Lemma subst_line_ok l : line_ok l = true -> line_ok (subst a l) = true.
+  Proof.
+    unfold assign_ok in Ha. apply andb_prop in Ha as [Hv _].
+    induction l as [|g l IH]; [reflexivity|]. cbn [line_ok forallb subst map]. intros H. apply andb_prop in H as [Hg Hl].
+    fold (line_ok l) in Hl. fold (subst a l). fold (line_ok (subst a l)). rewrite (IH Hl), andb_true_r.
+    destruct g as [s|n d]; [exact Hg|]. cbn [subst_seg]. unfold value_of.
+    destruct (lookup String.eqb n a) as [v|] eqn:E.
+    - cbn [seg_ok]. clear -Hv E. induction a as [|[k x] a' IHa]; [discriminate|]. cbn [forallb lookup snd] in *.
+      apply andb_prop in Hv as [H1 H2]. destruct (String.eqb n k); [inversion E; subst; exact H1|exact (IHa H2 E)].
+    - destruct d as [d|]; cbn [seg_ok] in *; [apply andb_prop in Hg as [_ Hd]; exact Hd|exact Hg].
+  Qed.
+
+  Lemma mentions_subst n l : mentions n (subst a l) = true -> mentions n l = true.
+  Proof.
+    unfold mentions. induction l as [|g l IH]; [discriminate|]. cbn [subst map existsb]. intros H. apply orb_prop in H as [H|H].
+    - destruct g as [s|m d]; [discriminate|]. cbn [subst_seg] in H. destruct (value_of a m); [discriminate|].
+      destruct d; [discriminate|]. cbn [is_named] in *. rewrite H. reflexivity.
+    - rewrite (IH H). apply orb_true_r.
+  Qed.
+
   Lemma pg_for h body r p :
-    item_wf a dflts (For h body) = true ->
+    item_ok (For h body) = true -> item_wf a dflts (For h body) = true ->
     PG false [] p (ut_item a (For h body) ++ r)
     = match ref_item a (For h body) with
       | Some out => option_map (app out) (PG false [] (Some (hdr_value a h)) r)
       | None => None
       end.
   Proof.
-    intros W. cbn [item_wf] in W. repeat (apply andb_prop in W as [W ?Wx]).
+    intros Hok W. cbn [item_wf] in W. repeat (apply andb_prop in W as [W ?Wx]).
     apply negb_true_iff in Wx3, Wx6. apply String.eqb_eq in Wx1.
+    cbn [item_ok] in Hok. apply andb_prop in Hok as [Hok Hnb]. apply andb_prop in Hok as [_ Hpl].
     set (v := hdr_value a h) in *.
     assert (Hbody : forallb for_plain (map (ref_line a) body) = true).
     { clear -Wx. induction body as [|l body IH]; [reflexivity|]. cbn [forallb map] in *.
       apply andb_prop in Wx as [H1 H2]. rewrite (IH H2), andb_true_r.
       unfold body_line_wf in H1. apply andb_prop in H1 as [H1 _]. apply andb_prop in H1 as [H1 _]. assumption. }
+    assert (Good : Forall good_line (map (subst a) body)).
+    { clear -Wx Hnb Hpl Ha. induction body as [|l body IH]; [constructor|]. cbn [forallb map] in *.
+      apply andb_prop in Wx as [W1 W2]. apply andb_prop in Hnb as [N1 N2]. apply andb_prop in Hpl as [P1 P2].
+      constructor; [|exact (IH P2 N2 W2)].
+      unfold body_line_wf in W1. apply andb_prop in W1 as [W1 WL]. apply andb_prop in W1 as [_ WF].
+      apply Bool.eqb_prop in WF, WL. unfold plain_line_ok in P1. apply andb_prop in P1 as [P1 _]. apply andb_prop in P1 as [P1 _].
+      repeat split; [apply subst_line_ok; exact P1|exact WF|exact WL|].
+      apply negb_true_iff in N1. destruct (mentions "FIRST" (subst a l)) eqn:MF; [|reflexivity].
+      destruct (mentions "LAST" (subst a l)) eqn:ML; [|reflexivity].
+      rewrite (mentions_subst _ _ MF), (mentions_subst _ _ ML) in N1. discriminate. }
     cbn [ut_item ref_item]. fold v. cbn [app pair_go]. rewrite Wx4, Wx3, Wx2, Wx1. cbn [orb andb negb app].
     rewrite <- app_assoc. rewrite (pg_snip _ [] _ _ Hbody). cbn [app pair_go].
     destruct for_end_facts as [Fb Fe]. rewrite Fb, Fe. cbn [orb andb negb app].
     destruct (for_items v) as [[|i items]|] eqn:EI; try discriminate.
-    destruct (innerexpand_for_loop (map (ref_line a) body) (Some v)) as [out|] eqn:EO; [|discriminate].
-    apply list_eqb_eq in Wx0. subst out.
+    assert (EO : innerexpand_for_loop (map (ref_line a) body) (Some v) = Some (ref_for (i :: items) (map (subst a) body))).
+    { replace (map (ref_line a) body) with (map render_line (map (subst a) body)) by (rewrite map_map; reflexivity).
+      apply for_loop_is_ref; [exact W|exact Good|exact EI|discriminate]. }
     assert (Ev : match v with EmptyString => None | String _ _ => Some v end = Some v).
     { destruct v; [discriminate|reflexivity]. }
     rewrite Ev, EO. cbn [option_map].
@@ -199,22 +234,22 @@ Section ForPhase.
     - destruct (existsb _ brs); [reflexivity|]. destruct els as [ls|]; [apply map_plain; assumption|reflexivity].
   Qed.
 
-  Lemma pg_items : forall t p, forallb (item_wf a dflts) t = true ->
+  Lemma pg_items : forall t p, forallb item_ok t = true -> forallb (item_wf a dflts) t = true ->
     PG false [] p (flat_map (ut_item a) t) = ref_lines a t.
   Proof.
-    induction t as [|it t IH]; intros p W; [reflexivity|].
-    cbn [forallb] in W. apply andb_prop in W as [Wi W]. cbn [flat_map ref_lines].
+    induction t as [|it t IH]; intros p Hk W; [reflexivity|].
+    cbn [forallb] in W, Hk. apply andb_prop in W as [Wi W]. apply andb_prop in Hk as [Hi Hk]. cbn [flat_map ref_lines].
     destruct it as [l|b elifs els|h body].
     - cbn [ut_item ref_item item_wf] in *. rewrite (pg_plains [ref_line a l] _ p); [|cbn [forallb]; unfold line_wf in Wi; rewrite Wi; reflexivity].
-      rewrite (IH p W). destruct (ref_lines a t); reflexivity.
+      rewrite (IH p Hk W). destruct (ref_lines a t); reflexivity.
     - cbn [ut_item ref_item]. cbn [item_wf] in Wi. apply andb_prop in Wi as [Wb We].
-      rewrite (pg_plains _ _ p (cond_plain _ _ Wb We)). rewrite (IH p W). destruct (ref_lines a t); reflexivity.
-    - rewrite (pg_for h body _ p Wi). destruct (ref_item a (For h body)); [|reflexivity].
-      rewrite (IH _ W). destruct (ref_lines a t); reflexivity.
+      rewrite (pg_plains _ _ p (cond_plain _ _ Wb We)). rewrite (IH p Hk W). destruct (ref_lines a t); reflexivity.
+    - rewrite (pg_for h body _ p Hi Wi). destruct (ref_item a (For h body)); [|reflexivity].
+      rewrite (IH _ Hk W). destruct (ref_lines a t); reflexivity.
   Qed.
 
-  Lemma do_for_ok t : forallb (item_wf a dflts) t = true -> do_for_lines (flat_map (ut_item a) t) = ref_lines a t.
-  Proof. intros W. exact (pg_items t None W). Qed.
+  Lemma do_for_ok t : forallb item_ok t = true -> forallb (item_wf a dflts) t = true -> do_for_lines (flat_map (ut_item a) t) = ref_lines a t.
+  Proof. intros Hk W. exact (pg_items t None Hk W). Qed.
 End ForPhase.
 
 (* ---------------------------------------------------------------- the whole pipeline *)
@@ -268,7 +303,7 @@ Theorem engine17_is_ref m dict (a : assign) t :
   engine17 m dict a t = ref17 a t.
 Proof.
   intros Hd G W. unfold in_grammar17 in G. apply andb_prop in G as [G Hfmn]. apply andb_prop in G as [_ Hitems].
-  unfold wf_assign17 in W. apply andb_prop in W as [Wa Wi]. unfold assign_ok in Wa. apply andb_prop in Wa as [_ Hfe].
+  unfold wf_assign17 in W. apply andb_prop in W as [Wa Wi]. pose proof Wa as Wa0. unfold assign_ok in Wa. apply andb_prop in Wa as [_ Hfe].
   apply negb_true_iff in Hfe.
   pose proof (render_inert_lines t Hitems) as I.
   assert (I1 : forallb load_inert (render t) = true /\ forallb expand_inert (render t) = true).
@@ -281,7 +316,7 @@ Proof.
   rewrite phase_expand. cbn [map_files]. rewrite (second_filter_id m _ IE).
   rewrite phase_usertags. unfold do_user_tags. cbn [map fst snd].
   unfold do_user_tags_file. rewrite (scan_template a _ t Hitems Wi Hfe).
-  rewrite phase_for. cbn [map_files]. rewrite (do_for_ok a _ t Wi). unfold ref17.
+  rewrite phase_for. cbn [map_files]. rewrite (do_for_ok a _ Wa0 t Hitems Wi). unfold ref17.
   destruct (ref_lines a t) as [ls|]; [|reflexivity].
   rewrite !phase_skip by (cbn [In]; tauto). rewrite phase_write. cbn [map_files].
   rewrite !phase_skip by (cbn [In]; tauto). reflexivity.
